@@ -143,8 +143,9 @@ JudgeRepr(r) ==
   LET NL == SetOf(r.NL) IN
   IF r.referr[1] # r.varerr[1] THEN "outcome-or-error-class-differs:" \o r.referr[1] \o "/" \o r.varerr[1]
   ELSE IF r.referr[1] # "" THEN
-       \* an unexpected $END on a window without any token carries default coordinates (there is no last token)
-       (IF r.endnotoken THEN "ok"
+       \* an unexpected $END on a text without any token carries the default coordinates (0, line 1, column 1): there is no
+       \* last token to borrow from.  For a window that starts at a > 0 that is not the shifted position (hunted defect 28)
+       (IF r.endnotoken THEN (IF r.a = 0 THEN "ok" ELSE "error-position-is-not-shifted-by-the-window-start@end-without-token")
         ELSE IF r.referr[2] >= 0 /\ r.varerr[2] # r.referr[2] + r.a THEN "error-position-is-not-shifted-by-the-window-start"
         ELSE IF r.varerr[2] >= 0 /\ r.varerr[3] > 0 /\ (r.varerr[3] # Line(NL, r.varerr[2]) \/ r.varerr[4] # Col(NL, r.varerr[2]))
              THEN "error-line-column-are-not-those-of-the-buffer"
